@@ -29,6 +29,23 @@ type c18 struct {
 	regs [c18NReg]mapset.Set[int]
 	prev string // the previous op line of the current history
 	st   *Stats
+	high [c18NReg]int // most members the register's current map has held
+}
+
+// noteSizes labels growth past a size threshold and a shrink back below a quarter of the high-water mark.
+func (r *c18) noteSizes() {
+	for i, m := range r.regs {
+		n := len(m)
+		if n > r.high[i] {
+			if c := lbClass(n); c != lbClass(r.high[i]) {
+				r.st.Note("set-grown" + c)
+			}
+			r.high[i] = n
+		} else if c := lbClass(r.high[i]); c != "" && n*4 < r.high[i] {
+			r.st.Note("set-grown" + c + "-then-shrunk-below-a-quarter")
+			r.high[i] = n
+		}
+	}
 }
 
 func c18Ptr(m mapset.Set[int]) uintptr {
@@ -136,6 +153,7 @@ func c18RetIdent(ret, recv uintptr, args []uintptr, pre [c18NReg]uintptr) string
 }
 
 func (r *c18) obs(res, asg string) string {
+	r.noteSizes()
 	return res + " " + asg + " | " + r.state() + " | " + r.alias()
 }
 
@@ -173,6 +191,9 @@ func (r *c18) noteOperands(op string, a, b int) {
 	default:
 		r.st.Note(op + "-same-size")
 	}
+	if a != b {
+		lbNote(r.st, op+"-smaller-operand-members", min(len(s), len(t)))
+	}
 }
 
 func c18Pairs(ts []string) map[int]int {
@@ -193,6 +214,7 @@ func (r *c18) Exec(op []string) string {
 	switch op[0] {
 	case "reset":
 		r.regs = [c18NReg]mapset.Set[int]{}
+		r.high = [c18NReg]int{}
 		return r.obs("-", "-")
 	case "setnil":
 		return r.ctor(c18Reg(op[1]), nil)
@@ -220,7 +242,20 @@ func (r *c18) Exec(op []string) string {
 			ps = append(ps, c18Ptr(m))
 			anyNil = anyNil || m == nil
 		}
-		r.st.Note(fmt.Sprintf("intersect-%d-operands", len(ss)))
+		r.st.Note(fmt.Sprintf("intersect-%d-operands", min(len(ss), 6)))
+		if len(ss) >= 3 {
+			least := len(ss[0])
+			for _, m := range ss {
+				least = min(least, len(m))
+			}
+			lbNote(r.st, "intersect-3+-operands-smallest-members", least)
+			for k, p := range ps {
+				if p != 0 && slices.Contains(ps[:k], p) {
+					r.st.Note("intersect-3+-operands-duplicate-operand")
+					break
+				}
+			}
+		}
 		if anyNil {
 			r.st.Note("intersect-nil-operand")
 		}
@@ -315,12 +350,17 @@ func (r *c18) Exec(op []string) string {
 		if len(r.regs[i]) == 0 {
 			r.st.Note(fmt.Sprintf("hasall-empty-recv-%d-items", min(len(op)-2, 1)))
 		}
+		lbNote(r.st, "hasall-recv-members", len(r.regs[i]))
+		if n := len(r.regs[i]); n >= 8 && len(op)-2 > n {
+			r.st.Note("hasall-more-items-than-members(duplicates)")
+		}
 		return r.obs(fmtBool(r.regs[i].HasAll(c18Ints(op[2:])...)), "-")
 	case "hasany":
 		i := c18Reg(op[1])
 		if len(r.regs[i]) == 0 {
 			r.st.Note("hasany-empty-recv")
 		}
+		lbNote(r.st, "hasany-recv-members", len(r.regs[i]))
 		return r.obs(fmtBool(r.regs[i].HasAny(c18Ints(op[2:])...)), "-")
 	case "slice":
 		i := c18Reg(op[1])
@@ -438,9 +478,153 @@ func genC18Histories(g *G) {
 	rec(nil, g.Scale(3, 4))
 }
 
+// c18v: the i-th member of the large sets (distinct for i < 100003, negative ones included, no pattern a hash
+// function or a bucket layout could line up with).
+func c18v(i int) int { return (i*7919)%100003 - 5000 }
+
+func c18list(vs []int) string {
+	var sb strings.Builder
+	for _, v := range vs {
+		fmt.Fprintf(&sb, " %d", v)
+	}
+	return sb.String()
+}
+
+const c18Routes = 9
+
+// c18LargeCase: one history around a set of n members.  s0 is built by the given route (every construction the
+// API offers: New in bulk, Add one by one from the zero value, NewSize + bulk Add, NewSize(0) + Add in chunks,
+// Range, Keys, Values, bulk Add with duplicates on a nil set, AddAll into a nil set); every predicate and the
+// n-ary Intersect (3 to 6 operands, the smallest one in every position, duplicated and nil operands) are applied
+// to it and to sets that differ from it in one member, are half of it, or are disjoint from it; then s0 is
+// shrunk below a quarter (RemoveAll, bulk Remove), queried again, regrown (AddAll), and drained with Pop.
+func c18LargeCase(g *G, n, route int, drain bool) []string {
+	mem := make([]int, n)
+	for i := range mem {
+		mem[i] = c18v(i)
+	}
+	g.R.Shuffle(n, func(i, j int) { mem[i], mem[j] = mem[j], mem[i] })
+	foreign := make([]int, n)
+	for i := range foreign {
+		foreign[i] = c18v(n + 1 + i)
+	}
+	shuffled := func(vs []int) []int {
+		out := slices.Clone(vs)
+		g.R.Shuffle(len(out), func(i, j int) { out[i], out[j] = out[j], out[i] })
+		return out
+	}
+	all := c18list(mem)
+	ops := []string{"reset"}
+	switch route {
+	case 0:
+		ops = append(ops, "new s0"+all)
+	case 1:
+		for _, v := range mem {
+			ops = append(ops, fmt.Sprintf("add s0 %d", v))
+		}
+	case 2:
+		ops = append(ops, fmt.Sprintf("newsize s0 %d", n), "add s0"+all)
+	case 3:
+		ops = append(ops, "newsize s0 0")
+		for lo := 0; lo < n; lo += 7 {
+			ops = append(ops, "add s0"+c18list(mem[lo:min(lo+7, n)]))
+		}
+	case 4:
+		ops = append(ops, "range s0"+all+c18list(mem[:n/3]))
+	case 5:
+		line := "keys s0"
+		for i, v := range mem {
+			line += fmt.Sprintf(" %d:%d", v, i%5)
+		}
+		ops = append(ops, line)
+	case 6:
+		line := "values s0"
+		for i, v := range mem {
+			line += fmt.Sprintf(" %d:%d", i, v)
+		}
+		for i := 0; i < n/4; i++ { // further keys with values already present
+			line += fmt.Sprintf(" %d:%d", n+i, mem[i])
+		}
+		ops = append(ops, line)
+	case 7:
+		ops = append(ops, "setnil s0", "add s0"+all+c18list(shuffled(mem)[:n/2]))
+	default:
+		ops = append(ops, "new s1"+all, "addall s0 s1", "setnil s1")
+	}
+	last, mid := mem[n-1], mem[n/2]
+	half := make([]int, 0, n/2+1)
+	for i := 0; i < n; i += 2 {
+		half = append(half, mem[i])
+	}
+	ops = append(ops, "len s0", fmt.Sprintf("has s0 %d", last), fmt.Sprintf("has s0 %d", foreign[0]),
+		// s1: the same set, then one member fewer, then the same size with one member replaced
+		"clone s1 s0", "equals s0 s1", "issubset s0 s1",
+		fmt.Sprintf("remove s1 %d", mid), "equals s0 s1", "equals s1 s0", "issubset s0 s1", "issubset s1 s0", "intersects s0 s1",
+		fmt.Sprintf("add s1 %d", foreign[1]), "equals s0 s1", "issubset s0 s1", "issubset s1 s0", "intersects s1 s0",
+		// s2: every other member
+		"new s2"+c18list(half), "issubset s2 s0", "issubset s0 s2", "intersects s2 s0", "intersects s0 s2", "equals s2 s0",
+		// s3: disjoint and of the same size, then with one common member
+		"new s3"+c18list(foreign[2:]), "intersects s0 s3", "intersects s3 s0", "issubset s3 s0", "equals s0 s3", "equals s3 s0",
+		fmt.Sprintf("add s3 %d", last), "intersects s0 s3", "intersects s3 s0", "intersect s3 s0 s3",
+		// HasAll / HasAny: every member, duplicates, more items than members, one stranger first / last
+		"hasall s0"+c18list(shuffled(mem)), "hasall s0"+all+c18list(shuffled(mem)[:n/2+1]),
+		"hasall s0"+all+fmt.Sprintf(" %d", foreign[0]), fmt.Sprintf("hasall s0 %d", foreign[0])+all,
+		"hasall s0"+strings.Repeat(fmt.Sprintf(" %d", mid), n+1), "hasall s0"+c18list(half)+c18list(half)+fmt.Sprintf(" %d %d", foreign[3], mid),
+		"hasall s2"+all, "hasall s2"+c18list(half)+c18list(half), "hasall s1"+all,
+		"hasany s0"+c18list(foreign), "hasany s0"+c18list(foreign)+fmt.Sprintf(" %d", mid), "hasany s2"+c18list(foreign)+all,
+		// n-ary Intersect: s0 (n), s1 (n, one member replaced), s2 (half), in every order, with duplicates and nil
+		"intersect s3 s0 s1 s2", "intersect s3 s0 s2 s1", "intersect s3 s1 s0 s2", "intersect s3 s1 s2 s0", "intersect s3 s2 s0 s1", "intersect s3 s2 s1 s0",
+		"intersect s3 s0 s1 s0", "intersect s3 s0 s0 s0", "intersect s3 s1 s0 s1 s0 s2", "intersect s3 s0 s2 s2 s1", "intersect s3 s0 s1 s2 s3",
+		"intersect s3 s1 s0 s0 s1 s2 s2", "setnil s3", "intersect s3 s0 s3 s1", "setnil s3", "intersect s3 s3 s0 s1 s2", "setnil s3", "intersect s3 s0 s1 s3",
+		"slice s2", "appendnil s2", "append s2 1 2 3",
+		// shrink s0 below a quarter: first the half that is s2, then three quarters of what is left
+		"removeall s0 s2", "len s0", "intersects s0 s2", "issubset s0 s1", "equals s0 s2")
+	var rest []int
+	for i := 1; i < n; i += 2 {
+		rest = append(rest, mem[i])
+	}
+	cut := len(rest) - len(rest)/4
+	ops = append(ops, "remove s0"+c18list(shuffled(rest[:cut]))+fmt.Sprintf(" %d", foreign[0]), "len s0",
+		"issubset s0 s1", "issubset s1 s0", "intersects s0 s1", "intersects s1 s0", "intersects s0 s2", "equals s0 s1",
+		"hasall s0"+c18list(rest[cut:]), "hasall s0"+all, "hasall s1"+c18list(rest[cut:]), "hasany s0"+c18list(half)+c18list(rest[:cut]), "hasany s0"+c18list(rest),
+		"intersect s3 s1 s0 s2", "intersect s3 s0 s1 s1", "intersect s3 s1 s2 s0 s1", "intersect s3 s1 s1 s0",
+		// regrow from the small state, from a clone of the small state
+		"clone s3 s0", "addall s3 s2", "addall s0 s1", "equals s0 s1", "issubset s1 s0", "issubset s3 s0", "removeall s1 s0", "len s1", "addall s1 s2", "equals s1 s2",
+		"clear s3", "len s3", fmt.Sprintf("add s3 %d", mid), fmt.Sprintf("hasall s3 %d %d", mid, mid), "intersect s2 s3 s0 s1")
+	if drain {
+		for i := 0; i < n+2; i++ {
+			ops = append(ops, "pop s0")
+		}
+		ops = append(ops, "len s0", fmt.Sprintf("add s0 %d", mid), "equals s0 s3")
+	}
+	return ops
+}
+
+// genC18Large: the sizes at which a Go map changes representation (more than 8 members: buckets; every doubling
+// at load factor 6.5) and the generic thresholds, from every construction route.
+func genC18Large(g *G) {
+	off := int(c13genSeed() / 1000)
+	if off < 0 {
+		off = -off
+	}
+	sizes := []int{9, 14, 17, 33, 65, 129, 300}
+	perSize := 2
+	if g.Thorough() {
+		sizes = append(lbAround(513), 14, 27, 53, 105, 209, 300, 417, 833, 1024, 1025)
+		perSize = 3
+	}
+	for si, n := range sizes {
+		for k := 0; k < perSize; k++ {
+			route := (si + off + k*4) % c18Routes
+			g.Each(c18LargeCase(g, n, route, n <= 65 || (k == 0 && n <= 300)))
+		}
+	}
+}
+
 func genC18(g *G) {
 	genC18Pairs(g)
 	genC18Histories(g)
+	genC18Large(g)
 	cases := g.Scale(500, 6000)
 	maxOps := g.Scale(60, 250)
 	for c := 0; c < cases; c++ {
